@@ -63,3 +63,16 @@ func VerifC16Processing(pid *PID) bool { return pid.schedState.Load() == dispatc
 func VerifC16Idle(pid *PID) bool {
 	return pid.schedState.Load() == dispatchIdle && pid.mailbox.IsEmpty() && pid.systemMailbox.IsEmpty()
 }
+
+// VerifC16GrainIdle: the grain process of id (if any) has no turn in progress and nothing queued.
+func VerifC16GrainIdle(sys ActorSystem, id *GrainIdentity) bool {
+	x, ok := sys.(*actorSystem)
+	if !ok || id == nil {
+		return true
+	}
+	p, ok := x.grains.Get(id.String())
+	if !ok || p == nil {
+		return true
+	}
+	return p.schedState.Load() == dispatchIdle && p.mailbox.IsEmpty() && (p.responses == nil || p.responses.IsEmpty())
+}
